@@ -2,18 +2,29 @@
 #include <SQuIDS/SQuIDS.h>
 #include <new>
 using namespace squids;
-// op: 1 default ctor, 2 sized ctor(nx,nsun,nrho,nscalar), 3 ini(...), 4 move-construct t from s, 5 move-assign t = move(s), 6 destroy
+// the stored state is protected: a subclass without data members gives the harness a way to initialise it (a user would do the same)
+struct S15 : public SQuIDS {
+  S15():SQuIDS(){}
+  S15(unsigned nx,unsigned d,unsigned nr,unsigned ns,double ti):SQuIDS(nx,d,nr,ns,ti){}
+  void fill(){ for(unsigned ix=0;ix<nx;ix++){ for(unsigned i=0;i<nrhos;i++) for(unsigned k=0;k<nsun*nsun;k++) state[ix].rho[i][k]=0.1*(k+1)+0.05*ix+0.01*i; for(unsigned j=0;j<nscalars;j++) state[ix].scalar[j]=0.5+j; } }
+};
+// op: 1 default ctor, 2 sized ctor(nx,nsun,nrho,nscalar), 3 ini(...), 4 move-construct t from s, 5 move-assign t = move(s), 6 destroy,
+// 7 const queries on t (interpolating expectation value with the library's internal scratch buffer, intermediate state, node lookup)
 extern "C" int h_solver_op(unsigned op, void* tp, void* sp, unsigned nx, unsigned nsun, unsigned nrho, unsigned nscalar){
-  SQuIDS* t=static_cast<SQuIDS*>(tp);
-  SQuIDS* s=static_cast<SQuIDS*>(sp);
+  S15* t=static_cast<S15*>(tp);
+  S15* s=static_cast<S15*>(sp);
   try{
     switch(op){
-      case 1: new(tp) SQuIDS(); break;
-      case 2: new(tp) SQuIDS(nx,nsun,nrho,nscalar,0.25); break;
+      case 1: new(tp) S15(); break;
+      case 2: new(tp) S15(nx,nsun,nrho,nscalar,0.25); break;
       case 3: t->ini(nx,nsun,nrho,nscalar,0.5); break;
-      case 4: new(tp) SQuIDS(std::move(*s)); break;
+      case 4: new(tp) S15(std::move(*s)); break;
       case 5: *t = std::move(*s); break;
-      case 6: t->~SQuIDS(); break;
+      case 6: t->~S15(); break;
+      case 7: { t->fill(); if(nx>1) t->Set_xrange(0.0,1.0,"lin"); double x = nx>1 ? 0.375 : t->Get_x(0);
+                SU_vector op=SU_vector::Projector(nsun,0);
+                double v=t->GetExpectationValueD(op,0,x); SU_vector r=t->GetIntermediateState(0,x); v+=r[0]+t->GetExpectationValue(op,0,0);
+                if(v!=v) return 4; } break;
       default: return 3;
     }
     return 0;
@@ -22,4 +33,4 @@ extern "C" int h_solver_op(unsigned op, void* tp, void* sp, unsigned nx, unsigne
   catch(std::exception&){ return 1; }
   catch(...){ return 3; }
 }
-extern "C" unsigned h_solver_sizeof(){ return sizeof(SQuIDS); }
+extern "C" unsigned h_solver_sizeof(){ return sizeof(S15); }
